@@ -16,6 +16,8 @@ from .domains import Domain
 from .load import unparse
 
 SIG = sp.Function("SIG")  # uninterpreted linear reduction over the panel / element axes
+SIGA = sp.Function("SIGA")  # reduction over one named axis: SIGA(expr, axis)
+CROSS = sp.Function("CROSS")  # vector product along the last axis (bilinear, uninterpreted)
 EYE = sp.Symbol("EYE")  # identity Jacobian of an array with respect to itself (element-wise)
 
 POSITIVE = ("t_over_c", "lengths_spanwise", "cfg:surface['k_lam']", "cfg:surface['c_max_t']", "rho", "v", "S_ref", "S_ref_total", "speed_of_sound", "Mach_number", "W0", "R", "CT", "re", "mu", "load_factor", "_structural_mass", "_S_ref", "chords", "widths", "lengths", "radius", "thickness", "A", "Iy", "Iz", "J", "element_lengths")
@@ -422,14 +424,14 @@ class SymX(Domain):
             if base is None:
                 return None
             # x[0] of a scalar input / scalar expression
-            s = unparse(node.slice).replace(" ", "")
+            s = canon_sub(node.slice)
             if isinstance(base, sp.Symbol):
                 if base not in self.table.arrays:
                     return base
                 comp = _component_key(node.slice)
                 if comp is not None:
                     return self.table.get("%s[...,%s]" % (base.name, comp), array=True, positive=False)
-                if s in (":", "...", ":,:", ":,:,:"):
+                if s in (":", "..."):
                     return base
                 return self.table.get("%s[%s]" % (base.name, s), array=True, positive=base.is_positive)
             if s in ("0", ":", "...", "0,0"):
@@ -542,6 +544,13 @@ class SymX(Domain):
                 return FUNCS[short](ads[0])
             if short == "sum" and ads and ads[0] is not None and not [k for k in node.keywords if k.arg == "axis"] and len(args) == 1:
                 return SIG(ads[0]) if has_array(ads[0], self.table) else ads[0]
+            if short == "sum" and ads and ads[0] is not None and len(args) == 1:
+                ax = [k.value for k in node.keywords if k.arg == "axis"]
+                if ax and isinstance(ax[0], ast.Constant) and isinstance(ax[0].value, int) and not isinstance(ads[0], sp.MatrixBase):
+                    return SIGA(ads[0], sp.Integer(ax[0].value))
+                return None
+            if short == "cross" and len(ads) >= 2 and ads[0] is not None and ads[1] is not None and not isinstance(ads[0], sp.MatrixBase) and not isinstance(ads[1], sp.MatrixBase):
+                return CROSS(ads[0], ads[1])
             if short in ("eye", "identity"):
                 return EYE
             if short in ("ones", "ones_like"):
@@ -554,6 +563,24 @@ class SymX(Domain):
                 return ads[0] * sp.pi / 180
             return None
         return None
+
+
+def canon_sub(sl):
+    """canonical text of a subscript: lower bound 0 dropped, no spaces."""
+    elts = list(sl.elts) if isinstance(sl, ast.Tuple) else [sl]
+    out = []
+    for e in elts:
+        if isinstance(e, ast.Slice):
+            lo = "" if (e.lower is None or (isinstance(e.lower, ast.Constant) and e.lower.value == 0)) else unparse(e.lower).replace(" ", "")
+            hi = "" if e.upper is None else unparse(e.upper).replace(" ", "")
+            st = "" if e.step is None else ":" + unparse(e.step).replace(" ", "")
+            out.append("%s:%s%s" % (lo, hi, st))
+        else:
+            out.append(unparse(e).replace(" ", ""))
+    # trailing full slices are redundant
+    while len(out) > 1 and out[-1] == ":":
+        out.pop()
+    return ",".join(out)
 
 
 def _apply(op, cur, d):
